@@ -762,3 +762,42 @@ Proof.
   intros l u p H1 H2. split; [apply negative_step_accepted; auto|].
   apply grid_negative_step_empty; auto. pose proof eps_impl_pos. lra.
 Qed.
+
+(* ------------------------------------------------------------------------------------------------
+   Round 4: the nudge is a binary64 addition.  When it is absorbed (eff_eps = 0) the grid is arange(l, u, p): the
+   upper bound is never a grid point, and a range of exactly k steps yields k points (not k+1). *)
+From Coq Require Import Floats.
+Local Open Scope Q_scope.
+Lemma without_nudge_upper_excluded : forall l u p i x, 0 < p ->
+  nth_error (grid_e 0 l u p) i = Some x -> x < u.
+Proof.
+  intros l u p i x Hp H. destruct (grid_all_in_range 0 l u p i x Hp H) as [_ B]. lra.
+Qed.
+
+Lemma without_nudge_len_multiple : forall l u p k, 0 < p -> (0 <= k)%Z -> u - l == inject_Z k * p ->
+  grid_len 0 l u p = Z.to_nat k.
+Proof.
+  intros l u p k Hp Hk H. unfold grid_len, grid_lenZ.
+  assert (E : (u + 0 - l) / p == inject_Z k).
+  { assert (N : ~ p == 0) by lra.
+    setoid_replace (u + 0 - l) with (inject_Z k * p) by (rewrite <- H; ring).
+    field. exact N. }
+  rewrite E. rewrite Qceiling_Z. reflexivity.
+Qed.
+
+(* witness: bounds [0, 2e9], precision 1e9 (all exactly representable; the range is exactly 2 steps) *)
+Lemma hits_upper_refuted_far_from_origin : exists l u p : float,
+  check_bounds_F [[l]; [u]] [p] = Ok /\ F2Q u - F2Q l == inject_Z 2 * F2Q p /\ (0 < F2Q p) /\
+  nudge_absorbed u = true /\ eff_eps u == 0 /\
+  grid_len (eff_eps u) (F2Q l) (F2Q u) (F2Q p) = 2%nat /\
+  forall x, In x (grid_e (eff_eps u) (F2Q l) (F2Q u) (F2Q p)) -> x < F2Q u.
+Proof.
+  exists 0%float, 0x1.dcd65p+30%float, 0x1.dcd65p+29%float.
+  split; [vm_compute; reflexivity|].
+  split; [vm_compute; reflexivity|].
+  split; [vm_compute; reflexivity|].
+  split; [vm_compute; reflexivity|].
+  split; [vm_compute; reflexivity|].
+  split; [vm_compute; reflexivity|].
+  intros x Hx. vm_compute in Hx. destruct Hx as [<-|[<-|[]]]; vm_compute; reflexivity.
+Qed.
